@@ -262,7 +262,7 @@ def cases_from_tlc(ctx, out, num, depth):
         for j, s in enumerate(states):
             if s["act"]["name"] == "Crash":
                 crash = {"kind": s["act"]["arg"], "seg": states[j - 1]["m"]["seg"], "pick": rnd.choice(["first", "mid", "last"])}
-        pp = dict(p, testMode=rnd.random() < 0.5, slash=rnd.random() < 0.5, eol="crlf" if rnd.random() < 0.4 else "lf", bigger=rnd.random() < 0.5)
+        pp = dict(p, testMode=rnd.random() < 0.5, slash=rnd.random() < 0.5, eol="crlf" if rnd.random() < 0.4 else "lf", bigger=rnd.random() < 0.5, subsec=rnd.random() < 0.35)
         script = [concretize_outcome(k, rnd, fixture(pp["eol"]), p["fmt"]) for k in kinds]
         cases.append({"id": "sim%d" % n, "src": "tlc-simulate", "p": pp, "init": init, "script": script, "crash": crash})
     return cases
@@ -285,6 +285,7 @@ def random_cases(seed, n):
             "slash": rnd.random() < 0.5,
             "eol": "crlf" if rnd.random() < 0.4 else "lf",
             "bigger": rnd.random() < 0.5,
+            "subsec": rnd.random() < 0.35,
         }
         fx = fixture(p["eol"])
         init = {
@@ -379,6 +380,15 @@ DIRECTED = [
     ("short-body-clean-close-archive-size-undeclared-only", "gz", "ok", True, False, {"arch": "absent"}, [{"k": "proto", "how": "short", "after": 150000}, "G"], None),
     ("short-body-clean-close-declared", "zip", "none", True, True, {}, [{"k": "proto", "how": "short", "after": 65536}, "G"], None),
     ("short-body-clean-close-every-attempt", "tar.gz", "none", False, False, {}, [{"k": "proto", "how": "short", "after": 1000 * (i + 1)} for i in range(11)], None),
+    # the peer goes silent mid-body (no FIN, no RST): with the read time-out the request asks for this is a ReadTimeoutError that is
+    # retried; without one the run would never end
+    ("stalled-connection-then-ok", "gz", "none", True, True, {}, [{"k": "proto", "how": "timeout", "after": 100000}, {"k": "proto", "how": "timeout", "after": 0}, "G"], None),
+    ("stalled-connection-every-attempt", "none", "none", False, False, {}, [{"k": "proto", "how": "timeout", "after": 65536 * (i % 3)} for i in range(11)], None, "crlf"),
+    # document and offset table modified within the same whole second, the table 0.5 s BEFORE the document: it is stale
+    ("stale-table-same-second-other-content", "none", "none", True, False, {"doc": "full", "off": "O", "newer": False}, [], None, "lf", {"subsec": True}),
+    ("stale-table-same-second-torn", "bz2", "none", False, True, {"doc": "full", "arch": "G", "off": "torn", "newer": False}, [], None, "crlf", {"subsec": True}),
+    ("stale-table-same-second-bundled", "zip", "none", True, True, {"doc": "full", "off": "bad", "newer": False}, [], None, "lf", {"subsec": True, "entry": "bundled"}),
+    ("fresh-table-same-second", "gz", "ok", True, True, {"doc": "full", "off": "X", "newer": True}, [], None, "lf", {"subsec": True}),
     # a well-formed response (Content-Length == body length) that is not the declared file: must never get the final name
     ("short-body-matching-header-declared", "gz", "none", True, True, {}, [{"k": "body", "c": "Th", "hdr": True}, "G"], None),
     ("junk-200-declared-uncompressed", "none", "none", True, False, {"tmp": "stale"}, [{"k": "body", "c": "J", "hdr": True}], None),
@@ -565,7 +575,8 @@ def run(ctx, out):
         "torn / unparsable offset tables (cut inside an entry) are INITIAL states only (what a power loss, a full disk or an interrupted copy of the data directory leaves): a killed process cannot produce them, CPython's text layer hands complete print() pieces to the OS, so a killed build leaves a correct prefix of the table (observed: the empty table)",
         "a kill is os._exit of a forked child at an observed C-level call (open/write/rename/remove/utime/close/fork_exec...), an interrupt is a BaseException raised at that call; while an external decompressor runs no crash is injected (its progress is scheduling dependent)",
         "pbzip2 / pzstd are not installed: thin wrappers around the bzip2 / zstd binaries stand in for them (pigz is real); 'fail' tools exit 1 without output",
-        "mtimes written by a run are moved to deterministic instants between runs, keeping their order (no verdict depends on the clock granularity)",
+        "mtimes written by a run are moved to deterministic instants between runs, keeping their order (no verdict depends on the clock granularity); initial document / table mtimes differ by 100 s or (a share of the cases) lie within the same whole second, the table 0.5 s before or 0.2 s after the document",
+        "a connection that goes silent mid-body is scripted below urllib3's response object: the body source raises socket.timeout iff the request was made with a finite read time-out (urllib3 turns it into ReadTimeoutError), otherwise the read never returns and the run is ended as hung",
         "explicit error = any Exception leaving the call (library exceptions such as EOFError / zstd.ZstdError / urllib3 ProtocolError count; their kind is compared at L2 only)",
     ]
     # ---- Leg M
